@@ -415,6 +415,36 @@ func (u *Unit) call(ev *Ev, x *ast.CallExpr, callee types.Object) Value {
 				for _, i := range idx[:len(idx)-1] {
 					r = ev.stepField(r, i, sel.Pos())
 				}
+				if fsig, ok := c.Type().(*types.Signature); ok && fsig.Recv() != nil && r.K == vStruct && len(idx) > 1 {
+					if _, ptrRecv := fsig.Recv().Type().(*types.Pointer); ptrRecv {
+						// pointer-receiver method promoted from an embedded struct: the receiver is the address of the embedded field
+						if bp, ok := base.Typ.Underlying().(*types.Pointer); ok && base.K == vScalar {
+							if stt, ok := structOf(bp.Elem()); ok {
+								var names []string
+								cur := stt
+								okPath := true
+								for _, i := range idx[:len(idx)-1] {
+									f := cur.Field(i)
+									names = append(names, f.Name())
+									nx, ok := structOf(f.Type())
+									if !ok {
+										okPath = false
+										break
+									}
+									cur = nx
+								}
+								if okPath {
+									pre := strings.Join(names, ".")
+									lv := &LValue{K: lvHeap, Root: typeKey(bp.Elem()), rootT: bp.Elem(), Prefix: pre, Ref: base.T, Typ: r.Typ}
+									fa := u.declareFun(quote("fieldaddr:"+pre), []Sort{SRef}, SRef)
+									av := Value{K: vAddr, LV: lv, Typ: types.NewPointer(r.Typ), S: SRef, T: app(fa, base.T)}
+									ev.st.assume(implies(not(app("=", base.T, "nil")), not(app("=", av.T, "nil"))))
+									r = av
+								}
+							}
+						}
+					}
+				}
 				if r.K == vStruct && len(r.Comp) == 0 && isOpaqueStruct(r.Typ) {
 					// method on an opaque struct held in a field (sync/atomic values): the receiver is identified by the field's address
 					r = scalar(u.objKey(ev, sel.X), SRef, types.NewPointer(r.Typ))
